@@ -55,6 +55,11 @@ type OpenRsp struct {
 	Tag, Status, Priv byte
 	SIDM, SIDC        uint32
 	Algs              [3]byte
+	// Lens, if LensSet, are the payload-length bytes of the three algorithm
+	// payloads (8 in every conforming response; 0 is how a *request* spells a
+	// wildcard)
+	LensSet bool
+	Lens    [3]byte
 }
 
 // Bytes encodes an Open Session Response: 36 bytes for status 0, otherwise the
@@ -68,7 +73,11 @@ func (r *OpenRsp) Bytes() []byte {
 	}
 	b = append(b, le32(r.SIDC)...)
 	for i := 0; i < 3; i++ {
-		b = append(b, AlgPayload{Type: byte(i), Length: 8, Alg: r.Algs[i]}.Bytes()...)
+		l := byte(8)
+		if r.LensSet {
+			l = r.Lens[i]
+		}
+		b = append(b, AlgPayload{Type: byte(i), Length: l, Alg: r.Algs[i]}.Bytes()...)
 	}
 	return b
 }
